@@ -77,11 +77,10 @@ def builder_adts(F, D):
     return sorted(out)
 
 
-def run(ctx, res):
-    F = ctx.F
-    D = Disc(F)
-    adts = builder_adts(F, D)
-    res.floor("builder types", len(adts), 18)
+def setter_rules(F, D, res, adts):
+    """frame / rebuild / collection-idiom rules for the by-value builder methods of the given builder types: what a
+    rule calls "the configured value" is the argument of the public setter, so the round-trip and layout properties
+    need these for the builders they speak about; returns (pairs checked, collection adders checked, per-type info)"""
     n_set = n_coll = 0
     per = {}
     for adt in adts:
@@ -169,6 +168,15 @@ def run(ctx, res):
                        f"{name}::{mname} leaves field {f} exactly as {name}::{mname[:-6]} does on the same arguments",
                        detail=f"{ro.fields.get(f)!r} vs {rb.fields.get(f)!r}"[:300])
         per[name] = {"fields": fields}
+    return n_set, n_coll, per
+
+
+def run(ctx, res):
+    F = ctx.F
+    D = Disc(F)
+    adts = builder_adts(F, D)
+    res.floor("builder types", len(adts), 18)
+    n_set, n_coll, per = setter_rules(F, D, res, adts)
     res.floor("(method, field) pairs checked", n_set, 80)
     res.floor("collection adders checked", n_coll, 6)
     # ---- constructors of the owned / borrowed pairs agree on every plain field
